@@ -66,6 +66,7 @@ class Ctx(object):
         self.extra = {}
         kf = json.load(open(os.path.join(HERE, "known_findings.json")))
         self.known = [k for k in kf["findings"] if k["property"] == prop]
+        self._mon_cache = {}
 
     # ---------------------------------------------------------------- known findings
     def known_open(self, ident):
@@ -101,6 +102,14 @@ class Ctx(object):
 
     # ---------------------------------------------------------------- monitors (real code, /venv python)
     def monitor(self, name, mode, *args, timeout=600):
+        key = (name, mode) + tuple(str(a) for a in args)
+        if key in self._mon_cache:
+            return self._mon_cache[key]
+        r = self._monitor(name, mode, *args, timeout=timeout)
+        self._mon_cache[key] = r
+        return r
+
+    def _monitor(self, name, mode, *args, timeout=600):
         env = dict(os.environ)
         env["VERIF_REPO"] = REPO
         p = subprocess.run([VENV_PY, os.path.join(HERE, "monitors", "drive.py"), name, mode] + [str(a) for a in args],
@@ -133,7 +142,15 @@ class Ctx(object):
                 self.errors.append("%s: %s" % (u.name, r.msg))
             elif r.status == "undecided":
                 self.undecided.append("%s: %s" % (u.name, r.msg))
-            for (nm, model, note, solver, text) in r.refuted:
+            # one report per obligation site (same unit, kind, line, clause): the paths reaching it are listed in it
+            sites = {}
+            for item in r.refuted:
+                site = re.sub(r'#[^:]*', '', item[0])
+                sites.setdefault(site, []).append(item)
+            for site, items in sorted(sites.items()):
+                nm, model, note, solver, text = items[0]
+                self.obligations -= len(items) - 1
+                self.extra.setdefault("refuted_paths", {})[site] = [i[0] for i in items][:50]
                 self.handle_refutation(u, nm, model, note, solver, text, monitors.get(u.name))
         return results
 
@@ -143,7 +160,11 @@ class Ctx(object):
                 "smt2_head": text[:3000]}
         confirmed = False
         if mon is not None:
-            mname, to_inputs = mon
+            mname, to_inputs = mon[0], mon[1]
+            hint = mon[2](nm) if len(mon) > 2 else None
+            mline = re.search(r'/(safety|raises-only)[^@]*@(\d+)', nm)
+            if hint is None and mline:
+                hint = {"must_contain": ["%s:%s" % (os.path.basename(u.target.split("::")[0]), mline.group(2))]}
             vals = parse_model(model)
             try:
                 inputs = to_inputs(vals)
@@ -161,7 +182,11 @@ class Ctx(object):
             if not confirmed:
                 # counterexamples to loop preservation are intermediate states: bounded search around the model
                 try:
-                    res = self.monitor(mname, "search", 60000, self.seed, json.dumps(inputs) if inputs else "null")
+                    around = dict(inputs) if isinstance(inputs, dict) else {}
+                    if hint:
+                        around.update(hint)
+                    res = self.monitor(mname, "search", (mon[3] if len(mon) > 3 else 60000), self.seed,
+                                       json.dumps(around, sort_keys=True) if around else "null")
                     info["search_tried"] = res.get("tried")
                     if res.get("violation"):
                         confirmed = True
